@@ -229,12 +229,13 @@ theorem getNext_none (g : Agenda) (hf : g.focus = 0) (hs : g.stack = []) (hag : 
 /-- `TypedFacts` is a map: one binding per field -/
 def DataOK (w : WM) : Prop := ∀ f ∈ w.facts, (f.data.map (·.1)).Nodup
 
-def Quiet (rules : List Rule) : Prop := ∀ r ∈ rules, r.action.sets = [] ∧ r.action.retract = false ∧ r.noLoop = true
+def Quiet (rules : List Rule) : Prop :=
+  ∀ r ∈ rules, r.action.sets = [] ∧ r.action.retract = false ∧ r.noLoop = true ∧ r.action.xsets = []
 
 theorem quiet_of {rules : List Rule} (h : quietRules rules = true) : Quiet rules := by
   intro r hr
   simp only [quietRules, List.all_eq_true, Bool.and_eq_true, List.isEmpty_iff, Bool.not_eq_true'] at h
-  exact ⟨(h r hr).1.1, (h r hr).1.2, (h r hr).2⟩
+  exact ⟨(h r hr).1.1.1, (h r hr).1.1.2, (h r hr).1.2, (h r hr).2⟩
 
 structure AgInv (rules : List Rule) (g : Agenda) : Prop where
   focus : g.focus = 0
@@ -340,9 +341,10 @@ theorem fireOne_fresh (e : Engine) (a : Act) (hq : Quiet e.rules) (hd : DataOK e
       | some f =>
         simp only [hg] at h ⊢
         have hev : r.node.eval f.ty f.data = true := by simpa using h
-        obtain ⟨q1, q2, _⟩ := hq r (List.mem_of_find?_eq_some hr)
+        obtain ⟨q1, q2, _, q4⟩ := hq r (List.mem_of_find?_eq_some hr)
         refine ⟨r, hdl, f, rfl, rfl, hg, hev, ?_⟩
-        simp only [hev, Bool.not_true, Bool.false_eq_true, if_false, q1, q2, writeBack_nil e.wm hd]
+        have q5 : e.setsOf r = [] := by simp [Engine.setsOf, Action.resolve, q1, q4, resolveX]
+        simp only [hev, Bool.not_true, Bool.false_eq_true, if_false, q5, q2, writeBack_nil e.wm hd]
 
 theorem find_rule_of_mem : ∀ (l : List Rule) (r : Rule), (l.map (·.name)).Nodup → r ∈ l →
     l.find? (·.name == r.name) = some r := by
@@ -425,10 +427,10 @@ theorem typed_mono {w w' : WM} {rules : List Rule} {a : Act} (h : TypedAct w rul
 
 theorem addMatches_good (w : WM) (hi : WMInv w) (rules : List Rule) (hq : Quiet rules) (r : Rule) (hr : r ∈ rules) (ty : Nat)
     (hty : r.ty = ty) (p : Agenda × Nat) : Ext (GoodAct w rules) p.1 (addMatches r (w.getByType ty) p).1 := by
-  apply addMatches_ext _ r (hq r hr).2.2
+  apply addMatches_ext _ r (hq r hr).2.2.1
   intro f hf hev c id
   obtain ⟨h1, h2, h3⟩ := (getByType_iff hi ty f).1 hf
-  exact ⟨mkAct_plain r (hq r hr).2.2 _ _ _, r, hr, f, (getAllFacts_iff w f).2 ⟨h1, h3⟩, rfl, rfl, h2.trans hty.symm, hev⟩
+  exact ⟨mkAct_plain r (hq r hr).2.2.1 _ _ _, r, hr, f, (getAllFacts_iff w f).2 ⟨h1, h3⟩, rfl, rfl, h2.trans hty.symm, hev⟩
 
 theorem propagateAll_ext (e : Engine) (hi : WMInv e.wm) (hq : Quiet e.rules) :
     Ext (GoodAct e.wm e.rules) e.ag e.propagateAll.ag := by
@@ -505,10 +507,10 @@ theorem propagateAll_complete (e : Engine) (hi : WMInv e.wm) (hq : Quiet e.rules
     simp [hty, hc]
   apply foldl_complete (fun _ => True) _ _ _ (fun a => a.rule = r.name ∧ a.handle = some f.handle) r hmem _ p
   · intro p' rule hrule
-    exact addMatches_ext _ rule (hq rule (List.mem_filter.1 hrule).1).2.2 _ (fun _ _ _ _ _ => trivial) p'
+    exact addMatches_ext _ rule (hq rule (List.mem_filter.1 hrule).1).2.2.1 _ (fun _ _ _ _ _ => trivial) p'
   · intro p'
     obtain ⟨k1, k2⟩ := (getAllFacts_iff e.wm f).1 hf
-    exact addMatches_complete r (hq r hr).2.2 _ p' f ((getByType_iff hi f.ty f).2 ⟨k1, rfl, k2⟩) hev
+    exact addMatches_complete r (hq r hr).2.2.1 _ p' f ((getByType_iff hi f.ty f).2 ⟨k1, rfl, k2⟩) hev
 
 theorem propagateType_ext (e : Engine) (hi : WMInv e.wm) (hq : Quiet e.rules) (ty : Nat) :
     Ext (GoodAct e.wm e.rules) e.ag (e.propagateType ty).ag := by
@@ -1053,9 +1055,9 @@ theorem propagateType_complete (e : Engine) (hq : Quiet e.rules) (ty : Nat) :
   apply foldl_complete (fun _ => True) _ _ _ (fun a => a.rule = r.name ∧ a.handle = some f.handle) r
     (List.mem_filter.2 ⟨hr, by simpa using hty⟩) _ (e.ag, e.clock)
   · intro p rule hrule
-    exact addMatches_ext _ rule (hq rule (List.mem_filter.1 hrule).1).2.2 _ (fun _ _ _ _ _ => trivial) p
+    exact addMatches_ext _ rule (hq rule (List.mem_filter.1 hrule).1).2.2.1 _ (fun _ _ _ _ _ => trivial) p
   · intro p
-    exact addMatches_complete r (hq r hr).2.2 _ p f hf hev
+    exact addMatches_complete r (hq r hr).2.2.1 _ p f hf hev
 
 theorem compl_propagate {rules : List Rule} (hq : Quiet rules) (S S' : Nat → Prop) (e : Engine) (w' : WM) (ty : Nat)
     (hinv : Inv rules e) (hw' : WMInv w')
